@@ -72,18 +72,28 @@ package core
 //@   ensures field1: !err ==> entry.Offset == be(data[w[0]:w[0]+w[1]], min(w[1], 8))
 //@   ensures field2: !err ==> entry.Generation == be(data[w[0]+w[1]:w[0]+w[1]+w[2]], min(w[2], 8))
 
+//@ func NewXRefTable
+//@   flags inline
+
+//@ func (*XRefTable) Set
+//@   flags inline
+
+// C04: every entry of every /Index subsection is recorded under its object number - free entries too (a deletion
+// recorded in an xref-stream revision must hide the older definition)
 //@ func (*XRefParser) parseXRefStream results (table, err)
-//@   property C02
+//@   property C02, C04
 //@   callsite parseXRefStreamEntry(d, ws) requires ws[0] + ws[1] + ws[2] > 0
 //@   loop 0:
 //@     invariant 0 <= i && i <= len(indexArr) && len(index) == len(indexArr)
 //@   loop 1:
 //@     invariant 0 <= i && i <= 3 && len(w) == 3 && len(wArr) == 3
 //@   loop 2:
-//@     invariant 0 <= i && mod(i, 2) == 0 && mod(len(index), 2) == 0 && len(w) == 3 && w[0] >= 0 && w[1] >= 0 && w[2] >= 0 && w[0] + w[1] + w[2] > 0 && 0 <= dataOffset && dataOffset <= len(data)
+//@     invariant 0 <= i && mod(i, 2) == 0 && mod(len(index), 2) == 0 && len(w) == 3 && w[0] >= 0 && w[1] >= 0 && w[2] >= 0 && w[0] + w[1] + w[2] > 0 && 0 <= dataOffset && dataOffset <= len(data) && !isnil(table)
 //@     decreases len(index) - i
 //@   loop 3:
-//@     invariant 0 <= j && len(w) == 3 && w[0] >= 0 && w[1] >= 0 && w[2] >= 0 && w[0] + w[1] + w[2] > 0 && 0 <= dataOffset && dataOffset <= len(data) && 0 <= i && i + 1 < len(index)
+//@     invariant 0 <= j && len(w) == 3 && w[0] >= 0 && w[1] >= 0 && w[2] >= 0 && w[0] + w[1] + w[2] > 0 && 0 <= dataOffset && dataOffset <= len(data) && 0 <= i && i + 1 < len(index) && !isnil(table)
+//@     step every_entry_is_recorded: has(table.Entries, firstObjNum + prev(j)) && table.Entries[firstObjNum + prev(j)] == entry
+//@     step earlier_entries_are_kept: forall k int :: {table.Entries[k]} k != firstObjNum + prev(j) && has(prev(table.Entries), k) ==> has(table.Entries, k) && table.Entries[k] == prev(table.Entries)[k]
 //@     decreases count - j
 
 // The /Prev chain is followed newest first and returned oldest first; the walk must terminate on every file,
@@ -384,7 +394,9 @@ package core
 //@   flags nosafety
 //@   callsite Set(n, e) requires n == firstObjNum + i && e == entry
 //@   loop 0:
+//@     invariant !isnil(table)
 //@     decreases screm(scanner)
 //@   loop 1:
-//@     invariant 0 <= i && screm(scanner) <= entry(screm(scanner))
+//@     invariant 0 <= i && screm(scanner) <= entry(screm(scanner)) && !isnil(table)
+//@     step every_entry_is_recorded: has(table.Entries, firstObjNum + prev(i)) && table.Entries[firstObjNum + prev(i)] == entry
 //@     decreases count - i
